@@ -36,6 +36,8 @@ NAMED = ["C:\\temp\\new.csv", "/usr/share/data.csv", "He said \"hi\"", "it's", "
          "C:\\Users\\alice\\data.csv", "\\\\server\\gis\\Nevada\\unit7\\xsections", "raw\\units", "\\N", "\\x4", "\\u12", "a\\", "\\0", "\\a\\b\\f\\v\\r",
          # text that is not in Unicode normal form C (decomposed accents, compatibility characters): a value is its code points
          "A\u0301rea", "e\u0301te\u0301", "\u212b", "\ufb01le", "\u1e9b\u0323",
+         # characters that mean something to the formatting mini-languages of Python (str.format, %-formatting, string.Template)
+         "{0}", "{}", "{1, 2, 3}", "slope_{{copy}}.csv", "{name}", "}{", "100%", "%s of %d", "%(x)s", "$HOME/data", "${x}",
          "\ufeffelev", "a\ufeffb", "end\ufeff", "\u200bzw", "nb\u00a0sp", "soft\u00adhyphen", "\u2060wj", "\ufffd"]
 INTS = [0, 1, -1, 7, -12, 10 ** 6, 2 ** 53, -(2 ** 63), 10 ** 22]
 FLOATS = [0.5, -0.0, 0.0, 1e-05, 1.5e-07, 1e22, 1e300, 123456789.125, -2.5, 1e16, 1.0, 5e-324, float("inf"), float("-inf"), float("nan"), 0.1, 1 / 3.0]
